@@ -151,16 +151,14 @@ Proof. exact element_size_differs. Qed.
    the tail (count 2 -> 1), the WASM host has freed it (1 -> 0) and the next load faults there only. *)
 Theorem C01_prims_usersum_differs :
   let value := fun raw => [1; 4607182418800017408; raw] in
-  let (h0, r0) := hp_alloc sm_new [0] in
-  match r0 with
-  | IHandle raw =>
-      let v1 := fst (vm_usersum_clone [ty_list] (mkVm h0 sm_new (st_init 0)) (value raw) 3 0) in
-      let hv := fst (hp_release (v_heap v1) raw) in
-      let w1 := fst (wasm_usersum_clone (mkWa h0 [] (st_init 0) 0 0) (value raw) 3 0) in
-      let hw := fst (hp_release (w_heap w1) raw) in
-      hp_load hv raw 1 = IWords [0] /\ hp_load hw raw 1 = IFault FInvalidHandle
-  | _ => False
-  end.
+  let (h0, k0) := st_alloc sm_new [0] in
+  let rv := h_enc VE k0 in        (* the VM's handle for the box *)
+  let rw := h_enc WE k0 in        (* the WASM host's handle for the same box *)
+  let v1 := fst (vm_usersum_clone [ty_list] (mkVm h0 sm_new (st_init 0)) (value rv) 3 0) in
+  let hv := fst (hp_release VE (v_heap v1) rv) in
+  let w1 := fst (wasm_usersum_clone (mkWa h0 [] (st_init 0) 0 0) (value rw) 3 0) in
+  let hw := fst (hp_release WE (w_heap w1) rw) in
+  hp_load VE hv rv 1 = IWords [0] /\ hp_load WE hw rw 1 = IFault FInvalidHandle.
 Proof. exact usersum_differs. Qed.
 
 (* the former witness of the +infinity difference (repaired in /repo by 15d0817): both backends take the LAST element for
@@ -185,8 +183,18 @@ Proof. exact ex_ops2_pre. Qed.
 Example C01_prims_ex_released_handle_detected :
   spec_run (spec_init 0 0 F64_44100) ex_ops =
     [SHeapH 0; SHeapH 1; SCount 2; SVals [VNum F64_ONE; VHeap 0]; SUnit; SCount 1; SCount 0; SInvalid; SFault FInvalidHandle] /\
-  vm_run 0 ex_ops = wasm_run 0 F64_44100 ex_ops.
+  vm_run 0 ex_ops =
+    [IHandle 4294967297; IHandle 8589934593; ICount 2; IWords [F64_ONE; 4294967297]; IUnit; ICount 1; ICount 0; IInvalid; IFault FInvalidHandle] /\
+  wasm_run 0 F64_44100 ex_ops =
+    [IHandle 4294967297; IHandle 4294967298; ICount 2; IWords [F64_ONE; 4294967297]; IUnit; ICount 1; ICount 0; IInvalid; IFault FInvalidHandle].
 Proof. exact ex_ops_runs. Qed.
+
+(* the WASM host after the repair of finding P5: the zero word, a word that names no slot and the word of a
+   released (and re-used) slot are invalid handles, not reads of a vacant slot *)
+Example C01_prims_ex_wasm_bad_heap_word_invalid :
+  wasm_run 0 F64_44100 w_badheap =
+    [IHandle 4294967297; ICount 0; IHandle 12884901889; IInvalid; IInvalid; IInvalid; IFault FInvalidHandle].
+Proof. exact wasm_bad_heap_word_invalid. Qed.
 
 Example C01_prims_ex_short : ops_short ex_ops2.
 Proof. exact ex_ops2_short. Qed.
